@@ -203,7 +203,10 @@ class Model:
         for path in sorted(overlay.files):
             if not path.startswith(prefix):
                 continue
-            m = Module(path, overlay.tree(path), overlay.files[path])
+            # a PRIVATE copy of the syntax tree: the model normalises its trees in place (splicing, call style, gathers ...), and several
+            # models may be built over one overlay (self-test baseline, corpus evaluation)
+            overlay.tree(path)          # raises AnalysisError for a file that does not parse
+            m = Module(path, ast.parse(overlay.files[path], filename=path), overlay.files[path])
             self.modules[m.name] = m
             self.by_path[path] = m
         self.classes: Dict[str, ClassInfo] = {}
